@@ -49,6 +49,7 @@ def fvn_kernel():
 # (class, method, Lean name): pixel kernels `(disp, valid) -> (out_disp, out_val)` of interpolated_disparity.py
 PIXEL_KERNELS = [
     ("SgmInterpolation", "interpolate_occlusion_sgm", "occlusionSgmPx"),
+    ("SgmInterpolation", "interpolate_mismatch_sgm", "mismatchSgmPx"),
 ]
 PX_PARAMS = [AParam("disp", VAL, 2), AParam("valid", INT, 2)]
 
@@ -94,6 +95,8 @@ GOLDEN_PX = [
     ([[3, None, 5]], [[0, 256, 0]]),
     ([[1, 2, 3], [4, None, 6], [-7, 8, None]], [[1, 0, 64], [0, 256 + 4, 1024], [4, 0, 256]]),
     ([[None, 2]], [[256, 0]]),
+    ([[3, None, 5, None]], [[0, 512, 0, 256]]),
+    ([[1, None], [None, 6], [None, None]], [[0, 512], [512 + 8, 0], [512, 2]]),
 ]
 
 
